@@ -503,3 +503,32 @@ Example ex_retry_deferred :
   = [(1, 1, 101); (2, 1, 101); (2, 2, 40001); (2, 3, 40002); (2, 4, 257);
      (3, 2, 40001); (3, 3, 40002); (3, 4, 257); (3, 5, 1001); (3, 6, 1002)].
 Proof. vm_compute; reflexivity. Qed.
+
+(* ================= retry handles run on another client ================= *)
+
+(* the retransmission of an interrupted SUBSCRIBE / UNSUBSCRIBE is an ordinary new request of the
+   client it runs on: nothing of client A (its counter a in particular) enters *)
+Lemma handle_sub_fresh a b hB :
+  run_handle_on a RSub b hB = run_seq b (hB ++ [HReq RSub]) /\
+  run_handle_on a RUnsub b hB = run_seq b (hB ++ [HReq RUnsub]).
+Proof. split; reflexivity. Qed.
+
+(* a retransmitted publish carries the identifier it had on client A, and does not move B's counter *)
+Lemma handle_pub_keeps a q g b hB :
+  final_counter b (hB ++ [HReq (handle_req (interrupt a (RPub q g)))]) = final_counter b hB /\
+  snd (issue1 a (RPub q g)) <> 0.
+Proof.
+  assert (Hnz : snd (issue1 a (RPub q g)) <> 0).
+  { unfold issue1. destruct (is_auto (RPub q g)) eqn:E; [apply new_id_nonzero|].
+    cbn [is_auto] in E. cbn [snd given_of]. apply N.eqb_neq. exact E. }
+  split; [|exact Hnz].
+  cbn [interrupt handle_req]. revert b. induction hB as [|e h IH]; intros b.
+  - cbn [app final_counter]. unfold issue1 at 1. cbn [is_auto].
+    apply N.eqb_neq in Hnz. rewrite Hnz. reflexivity.
+  - destruct e as [r|j]; cbn [app final_counter]; apply IH.
+Qed.
+
+Example ex_handle : (* A at 100: SUBSCRIBE took 101; B at 100 holds 101 and 102; the retransmission takes 103 from B *)
+  run_handle_on 100 RSub 100 [HReq (RPub 1 0); HReq (RPub 1 0)]
+  = [OIssue 0 (RPub 1 0) 101; OIssue 0 (RPub 1 0) 102; OIssue 0 RSub 103].
+Proof. vm_compute; reflexivity. Qed.
